@@ -22,7 +22,7 @@ from __future__ import annotations
 import datetime as dt
 import re
 
-from pyoda_time import Instant, LocalDate, LocalDateTime, LocalTime, Offset
+from pyoda_time import Instant, LocalDate, LocalTime, Offset
 from pyoda_time.text import InstantPattern, LocalDatePattern, LocalDateTimePattern, LocalTimePattern, OffsetPattern
 
 from vf.core.evidence import Acc, exc_origin, exc_site
